@@ -477,12 +477,12 @@ def fmt_arguments(m, args_obj, out):
 def fmt_argument(m, arg, out, alternate):
     kind, p = arg.data
     if kind == 'display':
-        display(m, p, out)
+        display(m, p, out, alternate)
     else:
         debug(m, p, out, alternate)
 
 
-def display(m, v, out):
+def display(m, v, out, alternate=False):
     while True:
         if isinstance(v, Ptr):
             if v.meta is not None:
@@ -506,9 +506,9 @@ def display(m, v, out):
         out.extend(Int('u8', b) for b in (b'true' if v else b'false'))
         return
     if isinstance(v, Adt) and v.name == 'Cow':
-        return display(m, v.fields[0], out)
+        return display(m, v.fields[0], out, alternate)
     if isinstance(v, BoxObj):
-        return display(m, v.cell.v, out)
+        return display(m, v.cell.v, out, alternate)
     if hasattr(v, 'display'):
         return v.display(m, out)
     if isinstance(v, Adt):
@@ -516,6 +516,7 @@ def display(m, v, out):
         fn = m.resolve_local(c, [v])
         if fn is not None:
             f = Formatter()
+            f.alternate = alternate
             m.run_body(fn, [Ptr(Cell(v), ()), Ptr(Cell(f), ())])
             out.extend(f.out)
             return
@@ -568,6 +569,39 @@ def debug_str(m, elems, out):
     _lit(out, '"')
 
 
+def pad_adapter(m, sub):
+    """core::fmt::builders::PadAdapter: four spaces at the start of every line of the nested output."""
+    out = []
+    on_newline = True
+    for e in sub:
+        if on_newline:
+            _lit(out, '    ')
+        out.append(e)
+        if e.sym:
+            on_newline = m.ctx.branch(e.v == 0x0A)
+        else:
+            on_newline = e.v == 0x0A
+    return out
+
+
+def debug_entries(m, out, open_, close, entries, alternate):
+    """DebugList / DebugSet / DebugMap / DebugTuple layout.  entries: list of callables writing one entry into a buffer."""
+    _lit(out, open_)
+    for i, w in enumerate(entries):
+        if alternate:
+            if i == 0:
+                _lit(out, '\n')
+            sub = []
+            w(sub)
+            _lit(sub, ',\n')
+            out.extend(pad_adapter(m, sub))
+        else:
+            if i:
+                _lit(out, ', ')
+            w(out)
+    _lit(out, close)
+
+
 def debug(m, v, out, alternate=False):
     while isinstance(v, Ptr):
         if v.meta is not None:
@@ -616,22 +650,16 @@ def debug(m, v, out, alternate=False):
         if not v.fields:
             _lit(out, '()')
             return
-        _lit(out, '(')
-        for i, f in enumerate(v.fields):
-            if i:
-                _lit(out, ', ')
-            debug(m, f, out, alternate)
-        _lit(out, ')')
+        debug_entries(m, out, '(', ')', [(lambda o, f=f: debug(m, f, o, alternate)) for f in v.fields], alternate)
         return
     if isinstance(v, HashMapObj):
-        _lit(out, '{')
-        for n, i in enumerate(hashmap_order(m, v)):
-            if n:
-                _lit(out, ', ')
-            debug(m, v.entries[i][0], out, alternate)
-            _lit(out, ': ')
-            debug(m, v.entries[i][1].v, out, alternate)
-        _lit(out, '}')
+        def ent(i):
+            def w(o):
+                debug(m, v.entries[i][0], o, alternate)
+                _lit(o, ': ')
+                debug(m, v.entries[i][1].v, o, alternate)
+            return w
+        debug_entries(m, out, '{', '}', [ent(i) for i in hashmap_order(m, v)], alternate)
         return
     if isinstance(v, BoxObj):
         return debug(m, v.cell.v, out, alternate)
@@ -642,14 +670,10 @@ def debug(m, v, out, alternate=False):
             if v.variant == 'None':
                 _lit(out, 'None')
             else:
-                _lit(out, 'Some(')
-                debug(m, v.fields[0], out, alternate)
-                _lit(out, ')')
+                debug_entries(m, out, 'Some(', ')', [lambda o: debug(m, v.fields[0], o, alternate)], alternate)
             return
         if v.name == 'Result':
-            _lit(out, v.variant + '(')
-            debug(m, v.fields[0], out, alternate)
-            _lit(out, ')')
+            debug_entries(m, out, v.variant + '(', ')', [lambda o: debug(m, v.fields[0], o, alternate)], alternate)
             return
         if v.name == 'Cow':
             return debug(m, v.fields[0], out, alternate)
@@ -669,12 +693,7 @@ def debug(m, v, out, alternate=False):
 
 
 def debug_list(m, elems, out, alternate):
-    _lit(out, '[')
-    for i, e in enumerate(elems):
-        if i:
-            _lit(out, ', ')
-        debug(m, e, out, alternate)
-    _lit(out, ']')
+    debug_entries(m, out, '[', ']', [(lambda o, e=e: debug(m, e, o, alternate)) for e in elems], alternate)
 
 
 # =============================================================================
@@ -1785,6 +1804,58 @@ def install(m):
         cont.elems[s:s + n] = sort_list(m, items, less)
         return unit()
 
+    def unstable_shuffle(m, items, less):
+        """An unstable sort promises nothing about the relative order of elements that compare equal: after the (stable) sort every
+        maximal run of equal elements is permuted nondeterministically (all permutations for runs of <= 3, identity / reverse /
+        rotations beyond).  Elements that are structurally identical are not permuted."""
+        import itertools as _it
+        out = []
+        i = 0
+        n = len(items)
+        while i < n:
+            j = i + 1
+            while j < n and not m.ctx.branch(less(items[j - 1], items[j])):
+                j += 1
+            run = items[i:j]
+            if len(run) > 1 and any(x is not run[0] for x in run[1:]):
+                if len(run) <= 3:
+                    perms = list(_it.permutations(range(len(run))))
+                else:
+                    k = len(run)
+                    perms = [tuple(range(k)), tuple(reversed(range(k)))] + [tuple((r + t) % k for t in range(k)) for r in range(1, k)]
+                which = m.ctx.pick(len(perms), 'unstable-sort')
+                run = [run[t] for t in perms[which]]
+            out.extend(run)
+            i = j
+        return out
+
+    @reg('sort_by_key', 'sort_unstable_by_key', 'sort_by_cached_key', 'sort_by', 'sort_unstable_by')
+    def _sort_by(m, a, c, rt):
+        p = a[0] if (isinstance(a[0], Ptr) and a[0].meta is not None) else fat(m, a[0], 'slice')
+        cont = container_of(m, p)
+        _, s, n = p.meta
+        items = cont.elems[s:s + n]
+        f = a[1]
+        if c.method in ('sort_by', 'sort_unstable_by'):
+            def less(x, y):
+                o = m.call_value(f, [Ptr(Cell(x), ()), Ptr(Cell(y), ())])
+                return o.variant == 'Less'
+        else:
+            keys = {}
+
+            def key(x):
+                if id(x) not in keys:
+                    keys[id(x)] = (x, m.call_value(f, [Ptr(Cell(x), ())]))
+                return keys[id(x)][1]
+
+            def less(x, y):
+                return value_lt(m, key(x), key(y))
+        res_ = sort_list(m, items, less)
+        if 'unstable' in c.method:
+            res_ = unstable_shuffle(m, res_, less)
+        cont.elems[s:s + n] = res_
+        return unit()
+
     @reg('extend')
     def _extend(m, a, c, rt):
         tgt = deref(m, a[0])
@@ -2012,13 +2083,23 @@ def install(m):
         if c.trait_base == 'Debug':
             debug(m, a[0], out, f.alternate)
         else:
-            display(m, a[0], out)
+            display(m, a[0], out, f.alternate)
         f.out.extend(out)
         return ok(unit())
 
     def dbg_fields(m, f, name, pairs):
         _lit(f.out, name)
-        if pairs:
+        if pairs and f.alternate:
+            # {:#?}: one field per line, nested output indented by the PadAdapter; the flag is inherited by the fields
+            _lit(f.out, ' {\n')
+            for k, v in pairs:
+                sub = []
+                _lit(sub, k + ': ')
+                debug(m, v, sub, True)
+                _lit(sub, ',\n')
+                f.out.extend(pad_adapter(m, sub))
+            _lit(f.out, '}')
+        elif pairs:
             _lit(f.out, ' { ')
             for i, (k, v) in enumerate(pairs):
                 if i:
@@ -2051,16 +2132,23 @@ def install(m):
     def _dbg_tuple_n(n):
         def h(m, a, c, rt):
             f = deref(m, a[0])
-            _lit(f.out, cstr(m, a[1]) + '(')
-            for i in range(n):
-                if i:
-                    _lit(f.out, ', ')
-                debug(m, a[2 + i], f.out, False)
-            _lit(f.out, ')')
+            debug_entries(m, f.out, cstr(m, a[1]) + '(', ')', [(lambda o, x=a[2 + i]: debug(m, x, o, f.alternate)) for i in range(n)], f.alternate)
             return ok(unit())
         return h
     for n in range(1, 5):
         L['debug_tuple_field%d_finish' % n] = _dbg_tuple_n(n)
+
+    @reg('Formatter::alternate', 'alternate')
+    def _alternate(m, a, c, rt):
+        return bool(deref(m, a[0]).alternate)
+
+    @reg('Formatter::sign_plus', 'sign_plus', 'Formatter::sign_minus', 'sign_minus', 'Formatter::sign_aware_zero_pad', 'sign_aware_zero_pad')
+    def _fmt_flag_false(m, a, c, rt):
+        return False
+
+    @reg('Formatter::width', 'Formatter::precision')
+    def _fmt_none(m, a, c, rt):
+        return none()
 
     @reg('debug_struct')
     def _debug_struct(m, a, c, rt):
@@ -2072,9 +2160,18 @@ def install(m):
     def _ds_field(m, a, c, rt):
         ds = deref(m, a[0])
         f, n = ds.data
-        _lit(f.out, ' { ' if n == 0 else ', ')
-        _lit(f.out, cstr(m, a[1]) + ': ')
-        debug(m, a[2], f.out, False)
+        if f.alternate:
+            if n == 0:
+                _lit(f.out, ' {\n')
+            sub = []
+            _lit(sub, cstr(m, a[1]) + ': ')
+            debug(m, a[2], sub, True)
+            _lit(sub, ',\n')
+            f.out.extend(pad_adapter(m, sub))
+        else:
+            _lit(f.out, ' { ' if n == 0 else ', ')
+            _lit(f.out, cstr(m, a[1]) + ': ')
+            debug(m, a[2], f.out, False)
         ds.data[1] = n + 1
         return a[0]
 
@@ -2084,7 +2181,7 @@ def install(m):
         if isinstance(ds, Opaque) and ds.kind == 'DebugStruct':
             f, n = ds.data
             if n:
-                _lit(f.out, ' }')
+                _lit(f.out, '}' if f.alternate else ' }')
             return ok(unit())
         raise Unsupported('finish on %r' % (ds,))
 
